@@ -149,6 +149,23 @@ def py_diff(ctx):
             ctx.require(c)
 
 
+def model_proofs(ctx):
+    """TLAPS checks spec/proofs/LeakyValid.tla: the leaky quantisation of LeakyQuantizer and of the `fast` categorical constructors
+    (FixedPoint.tla: LeakyLeft / FastLeft) gives every symbol a probability of at least one quantum and tiles [0, 2^P) for ALL
+    precisions, support sizes and monotone cumulative distributions (exact arithmetic).  MC_Models.ProofBridge (TLC, every
+    enumerated input) ties the formulas of FixedPoint.tla to the theorem."""
+    import shutil, subprocess, re
+    wd = os.path.join(ctx.work, "proofs_models")
+    shutil.copytree(os.path.join(core.SPEC, "proofs"), wd, ignore=shutil.ignore_patterns(".tlacache"))
+    p = subprocess.run(["timeout", "1500", "tlapm", "--threads", "6", "--cleanfp", "LeakyValid.tla"], cwd=wd, stdout=subprocess.PIPE, stderr=subprocess.STDOUT, text=True)
+    m = re.search(r"All (\d+) obligations proved", p.stdout)
+    if not m:
+        raise core.ToolError("TLAPS did not prove spec/proofs/LeakyValid.tla:\n" + p.stdout[-1500:])
+    ctx.classes["tlaps_obligations_proved"] = ctx.classes.get("tlaps_obligations_proved", 0) + int(m.group(1))
+    ctx.assumptions.append("TLAPS 1.6 (SMT back end Z3) checks proofs correctly")
+    ctx.require("tlaps_obligations_proved", 70)
+
+
 def range_proofs(ctx):
     """Unbounded part of the design-level argument for the range coder: TLAPS checks spec/proofs/RangeCore.tla (EncoderSound: every
     point of the sub-interval the encoder selects is decoded as that symbol; DecoderStep: the decoder's offset stays inside the
@@ -462,7 +479,7 @@ def model_cases(ctx, kind, mode, configs):
     for (b, p, maxlen, maxval) in configs:
         cases = os.path.join(ctx.work, "%s_%d_%d.ndjson" % (kind, b, p))
         st = ctx.tlc("MC_Models", {"Kind": '"%s"' % kind, "B": b, "P": p, "MaxLen": maxlen, "MaxVal": maxval},
-                     invariants=["PredictedTablesValid", "Emit"], emit_to=cases, label="MC_Models_%s_%d_%d" % (kind, b, p))
+                     invariants=["PredictedTablesValid", "ProofBridge", "Emit"], emit_to=cases, label="MC_Models_%s_%d_%d" % (kind, b, p))
         if st["spec_violation"]:
             ctx.violation("specification: a predicted table violates the contract (%s) for %s B=%d P=%d:\n%s" % (st["spec_violation"], kind, b, p, st.get("counterexample", "")),
                           {"k": "spec", "module": "MC_Models", "constants": st["constants"]})
@@ -547,6 +564,7 @@ def model_traces(ctx):
 
 @prop("C03")
 def c03(ctx):
+    model_proofs(ctx)
     model_traces(ctx)
     model_cases(ctx, "fixed", "c03", fixed_cfgs(ctx))
     model_cases(ctx, "uniform", "c03", uniform_cfgs(ctx))
